@@ -2,7 +2,7 @@
 # usage: tools/confirm_seed.sh <Cxx> <N>   — confirms /tmp/seed/<Cxx>-out/change<N> in a fresh scratch worktree
 set -u
 id=$1; n=$2
-src=/tmp/seed/$id-out/change$n
+src=${SEED_BASE:-/tmp/seed}/$id-out/change$n
 wt=/tmp/confirm/$id-$n
 export GOFLAGS=-mod=mod GOPROXY=off
 rm -rf $wt; git -C /repo worktree prune; mkdir -p /tmp/confirm
